@@ -666,3 +666,55 @@ class conditional_new_nested:
                 and notNone(nth(hugr._tn_parent, n0)) and the(nth(hugr._tn_parent, n0)).idx == ite(isNone(parent), hugr.root, the(parent)).idx
                 and result.parent_node.idx == nth(hugr._tn_node, n0).idx,
                 "P_case_j_is_the_j_th_child_with_its_row": forall(int, lambda j: implies(0 <= j and j < k, case_at(result, hugr, n0 + 1, j, ghost("conditional_op_of", "hugr.ops.Conditional", hugr, result.parent_node.idx), result.parent_node)))}
+
+
+# ---- DfBase.add_conditional -------------------------------------------------------------------------------------
+@contract("hugr.tys.get_first_sum", props=[])
+class get_first_sum_named:
+    """TRUSTED: splits a row into its first type (a sum) and the rest; AssertionError when the first type is not a sum."""
+    trusted = True
+    types = {"types": "Seq[Type]"}
+    returns = "Tup[hugr.tys.Sum, Seq[Type]]"
+    may_raise = ["AssertionError"]
+
+    def modifies(types):
+        return []
+
+    def raises(types):
+        return {}
+
+    def ensures(types, result):
+        return {"first": len(types) >= 1 and same_obj(result[0], nth(types, 0)), "rest": eq(result[1], sub(types, 1, len(types) - 1))}
+
+
+@contract("hugr.build.dfg.DfBase.add_conditional", props=["C01"])
+class add_conditional:
+    types = {"cond_wire": "Union[Node, OutPort]", "args": "Seq[Union[Node, OutPort]]"}
+    exact_self = False
+    returns = "hugr.build.cond_loop.Conditional"
+    may_raise = ["ValueError", "AssertionError"]
+
+    def requires(self, cond_wire, args):
+        return aligned(self.hugr) and len(self._tw_node) == len(self._tw_wires)
+
+    def modifies(self, cond_wire, args):
+        h = self.hugr
+        return ["hugr.hugr.base.Hugr._tn_op", "hugr.hugr.base.Hugr._tn_parent", "hugr.hugr.base.Hugr._tn_outs", "hugr.hugr.base.Hugr._tn_node",
+                "hugr.hugr.base.Hugr._nodes", "hugr.hugr.base.Hugr._free_nodes", "hugr.build.cond_loop.Case._parent_cond",
+                self._tw_node, self._tw_wires, h._links.fwd, h._links.bck, "hugr.ops.Output._types", "hugr.ops.DataflowOp._g_epoch"]
+
+    def raises(self, cond_wire, args):
+        return {}
+
+    def ensures(self, cond_wire, args, result):
+        h = self.hugr
+        n0 = len(old(self.hugr._tn_op))
+        w = len(self._tw_node)
+        op = nth(h._tn_op, n0)
+        row = wire_row(self, concat(Seq("Union[Node, OutPort]", cond_wire), args))
+        return {"P_a_Conditional_over_the_type_of_the_first_wire_with_the_others_as_other_inputs": cls_is(op, Conditional_) and same_obj(as_cls(op, Conditional_).sum_ty, nth(row, 0))
+                and eq(as_cls(op, Conditional_).other_inputs, sub(row, 1, len(row) - 1)),
+                "P_under_this_container": notNone(nth(h._tn_parent, n0)) and the(nth(h._tn_parent, n0)).idx == self.parent_node.idx and same_obj(result.hugr, h)
+                and result.parent_node.idx == nth(h._tn_node, n0).idx,
+                "P_the_condition_then_the_other_wires_go_to_the_conditional_in_order": w == len(old(self._tw_node)) + 1 and len(self._tw_wires) == w
+                and nth(self._tw_node, w - 1).idx == result.parent_node.idx and eq(nth(self._tw_wires, w - 1), concat(Seq("Union[Node, OutPort]", cond_wire), args))}
